@@ -67,6 +67,9 @@ type c04Tpl struct {
 	SlowMs  int         // >0: a call hook at before_DEPLOY that takes this long
 	NonCrit string      // host of an additional NON-critical task of class cn ("" = none)
 	Gate    bool        // a DESTROY call hook that blocks until the driver opens a gate file: a teardown window of chosen length
+	PreGate bool        // a before_DEPLOY call hook that blocks until the driver opens a gate file (after pre-deployment cleanup and workflow load, before task acquisition)
+	Doomed  bool        // an additional critical task on a host that does not exist: the deployment fails after its attempts
+	Special bool        // only used by a choreographed scenario, never picked at random
 }
 
 var c04HostDet = map[string]string{"host1": "TST", "host2": "ITS", "host3": "TPC"}
@@ -86,6 +89,21 @@ var c04Templates = []c04Tpl{
 	{Name: "w1g", Hosts: []string{"host1"}, Tasks: [][2]string{{"ca", "host1"}, {"cb", "host2"}}, Gate: true},
 	{Name: "w23g", Hosts: []string{"host2", "host3"}, Tasks: [][2]string{{"cb", "host2"}}, Gate: true},
 	{Name: "w3g", Hosts: []string{"host3"}, Tasks: [][2]string{{"ca", "host1"}, {"cc", "host3"}}, Gate: true},
+	// take-over race (reuseUnlockedTasks): wt1 leaves an idle ca@host1 behind, wt2s takes it over, wt3d selects it too and fails
+	{Name: "wt1", Hosts: []string{"host1"}, Tasks: [][2]string{{"ca", "host1"}}, Special: true},
+	{Name: "wt2s", Hosts: []string{"host2"}, Tasks: [][2]string{{"ca", "host1"}}, PreGate: true, Special: true},
+	{Name: "wt3d", Hosts: []string{"host3"}, Tasks: [][2]string{{"ca", "host1"}}, PreGate: true, Doomed: true, Special: true},
+}
+
+// c04Pool: the templates requests pick from at random.
+func c04Pool() []c04Tpl {
+	var out []c04Tpl
+	for _, t := range c04Templates {
+		if !t.Special {
+			out = append(out, t)
+		}
+	}
+	return out
 }
 
 func (t c04Tpl) dets() []string {
@@ -123,6 +141,12 @@ func c04Files(gateDir string) map[string]string {
 		}
 		if t.NonCrit != "" {
 			fmt.Fprintf(&sb, "  - name: \"tn\"\n    constraints:\n      - attribute: machine_id\n        value: %q\n    task:\n      load: cn\n      critical: false\n", t.NonCrit)
+		}
+		if t.Doomed {
+			fmt.Fprintf(&sb, "  - name: \"tx\"\n    constraints:\n      - attribute: machine_id\n        value: \"host9\"\n    task:\n      load: cb\n      critical: true\n")
+		}
+		if t.PreGate {
+			fmt.Fprintf(&sb, "  - name: \"pgate\"\n    vars:\n      verif_gate: \"%s/pre-{{ environment_id }}\"\n      verif_tag: \"deploy-gate\"\n    call:\n      func: verif.Slow()\n      trigger: before_DEPLOY\n      timeout: 20s\n      critical: false\n", gateDir)
 		}
 		if t.Gate {
 			fmt.Fprintf(&sb, "  - name: \"dgate\"\n    vars:\n      verif_gate: \"%s/gate-{{ environment_id }}\"\n      verif_tag: \"destroy-gate\"\n    call:\n      func: verif.Slow()\n      trigger: DESTROY\n      timeout: 20s\n      critical: false\n", gateDir)
@@ -168,8 +192,10 @@ type c04Params struct {
 	Steps   int    `json:"requests_per_client"`
 	Barrier []int  `json:"barrier_steps"`
 	// faults and timing, all decided by the seed
-	Reconnect   int  `json:"reconnect_before_step"` // -1: none; else the event stream is dropped (all clients idle) before this barrier step
-	SlowRunning bool `json:"slow_task_running"`     // every second environment's tasks report TASK_RUNNING 250 ms after launch instead of 30 ms
+	Reconnect    int  `json:"reconnect_before_step"` // -1: none; else the event stream is dropped (all clients idle) before this barrier step
+	MidReconnect bool `json:"reconnect_in_mid_creation,omitempty"`
+	Takeover     bool `json:"takeover_race_first,omitempty"`
+	SlowRunning  bool `json:"slow_task_running"` // every second environment's tasks report TASK_RUNNING 250 ms after launch instead of 30 ms
 }
 
 type c04Req struct {
@@ -258,6 +284,11 @@ type c04Hist struct {
 	aborted bool
 	snapErr string
 
+	lmu      sync.Mutex // state of the launch callback (runs under the master's lock: never h.mu)
+	armTpl   string     // tasks of a creation of this template report TASK_RUNNING very late ...
+	armSeen  int        // ... number of them launched so far
+	armDelay time.Duration
+
 	gateDir  string
 	gateWait map[string]chan verifplugin.Record // environments whose destroy is being choreographed
 }
@@ -317,6 +348,8 @@ func c04Run(c *vlib.Ctx, idx int) {
 		p.Reconnect = p.Barrier[1+r.Intn(2)]
 	}
 	p.SlowRunning = (idx/4)%2 == 0
+	p.MidReconnect = p.Reconnect >= 0 && idx%6 == 5 // the stream is dropped in the middle of a creation instead of with all clients idle
+	p.Takeover = p.Reuse && !p.Delays && idx%8 == 1 // the history starts with the choreographed take-over race
 	if p.Delays {
 		p.Points = "envman.create.afterDetectorRead=sleep(50);taskman.killTasks.afterFilter=sleep(20)"
 	}
@@ -360,6 +393,14 @@ func c04Run(c *vlib.Ctx, idx int) {
 	slowEnv := map[string]bool{}
 	s.Master.OnLaunch = func(t *simmesos.LaunchedTask) simmesos.LaunchPlan {
 		d := 30 * time.Millisecond
+		h.lmu.Lock()
+		if h.armTpl != "" && strings.HasPrefix(t.RolePath, h.armTpl+".") {
+			h.armSeen++
+			d = h.armDelay
+			h.lmu.Unlock()
+			return simmesos.LaunchPlan{Kind: "running", Delay: d}
+		}
+		h.lmu.Unlock()
 		if p.SlowRunning {
 			lmu.Lock()
 			slow, seen := slowEnv[t.EnvID]
@@ -387,6 +428,9 @@ func c04Run(c *vlib.Ctx, idx int) {
 		c.Count("histories_slow_task_running", 1)
 	}
 
+	if p.Takeover {
+		h.takeoverRace()
+	}
 	var wg sync.WaitGroup
 	for cl := 0; cl < p.Clients; cl++ {
 		wg.Add(1)
@@ -560,7 +604,11 @@ func (h *c04Hist) client(cl int, r *rand.Rand) {
 			if step == h.p.Reconnect {
 				// every client is idle (its last request and snapshot are done): connection loss now
 				if cl == 0 {
-					h.reconnect()
+					if h.p.MidReconnect {
+						h.midReconnect(cli, r)
+					} else {
+						h.reconnect()
+					}
 				}
 				h.bar.wait()
 			}
@@ -625,7 +673,7 @@ func (h *c04Hist) client(cl int, r *rand.Rand) {
 			// 45 %: any template (often one whose detector is in use: refused creations and, when
 			// two such requests coincide, the exclusion check under contention); 55 %: a template whose
 			// detectors look free, so that several environments sharing hosts are alive at once
-			cand := c04Templates
+			cand := c04Pool()
 			if step > 0 && r.Intn(100) < 55 {
 				busy := map[string]bool{}
 				for _, e := range h.envs {
@@ -636,7 +684,7 @@ func (h *c04Hist) client(cl int, r *rand.Rand) {
 					}
 				}
 				var free []c04Tpl
-				for _, t := range c04Templates {
+				for _, t := range c04Pool() {
 					ok := true
 					for _, d := range t.dets() {
 						if busy[d] {
@@ -674,7 +722,7 @@ func (h *c04Hist) client(cl int, r *rand.Rand) {
 			if len(errEnvs) > 0 && r.Intn(100) < 40 {
 				ee := errEnvs[r.Intn(len(errEnvs))]
 				var hit []c04Tpl
-				for _, t := range c04Templates {
+				for _, t := range c04Pool() {
 					if len(intersect(t.dets(), ee.Dets)) > 0 {
 						hit = append(hit, t)
 					}
@@ -910,6 +958,12 @@ func (h *c04Hist) openGate(envID string) {
 	}
 }
 
+func (h *c04Hist) openPreGate(envID string) {
+	if f, err := os.Create(filepath.Join(h.gateDir, "pre-"+envID)); err == nil {
+		f.Close()
+	}
+}
+
 // watchGates follows the plugin log. A DESTROY hook of a "g" template blocks until its gate file exists: when
 // the teardown belongs to a destroy that a client is choreographing, the client is told (it opens the gate
 // itself); any other teardown (a failed creation) gets its gate opened at once.
@@ -937,17 +991,23 @@ func (h *c04Hist) watchGates(path string, stop chan struct{}) {
 			}
 			off += int64(len(line))
 			var rec verifplugin.Record
-			if json.Unmarshal(line, &rec) != nil || rec.Tag != "destroy-gate" || rec.Phase != "start" {
+			if json.Unmarshal(line, &rec) != nil || rec.Phase != "start" || (rec.Tag != "destroy-gate" && rec.Tag != "deploy-gate") {
 				continue
 			}
+			key := rec.Env
+			if rec.Tag == "deploy-gate" {
+				key = "pre:" + strings.SplitN(rec.Role, ".", 2)[0] // the creation of template <root role> is parked before its deployment
+			}
 			h.mu.Lock()
-			ch := h.gateWait[rec.Env]
+			ch := h.gateWait[key]
 			h.mu.Unlock()
 			if ch != nil {
 				select {
 				case ch <- rec:
 				default:
 				}
+			} else if rec.Tag == "deploy-gate" {
+				h.openPreGate(rec.Env)
 			} else {
 				h.openGate(rec.Env)
 			}
@@ -995,7 +1055,7 @@ func (h *c04Hist) gatedDestroy(ctx context.Context, cli pb.ControlClient, cl, st
 	h.c.Count("teardown_windows_held_open", 1)
 	// a template that needs one of the detectors of the environment being torn down
 	var hit []c04Tpl
-	for _, t := range c04Templates {
+	for _, t := range c04Pool() {
 		if len(intersect(t.dets(), env.Dets)) > 0 {
 			hit = append(hit, t)
 		}
@@ -1042,6 +1102,17 @@ func (h *c04Hist) reconnect() {
 	req := &c04Req{Client: 0, Step: h.p.Reconnect, Kind: "reconnect", Start: vlib.Seq()}
 	h.reqs = append(h.reqs, req)
 	h.mu.Unlock()
+	if !h.dropAndWait(req.Start) {
+		return
+	}
+	h.mu.Lock()
+	req.End = vlib.Seq()
+	h.mu.Unlock()
+	h.c.Count("reconnections", 1)
+}
+
+// dropAndWait severs the event stream and waits for the new subscription and the reconciliation answers.
+func (h *c04Hist) dropAndWait(since int64) bool {
 	life0 := h.s.Master.Life()
 	h.s.Master.DropStream()
 	deadline := time.Now().Add(90 * time.Second)
@@ -1055,20 +1126,261 @@ func (h *c04Hist) reconnect() {
 		if h.s.CoreAlive() {
 			h.c.Inconclusive(fmt.Sprintf("history %d: the core did not resubscribe within 90 s after the stream was dropped", h.p.Index))
 		}
-		return
+		return false
 	}
 	waitQuiet(h.s, 200*time.Millisecond, 5*time.Second) // RECONCILE and its answers
 	n := 0
 	for _, rec := range h.s.Master.Log() {
-		if rec.Seq > req.Start && rec.Kind == "event" && rec.Type == "UPDATE" && rec.F["reason"] == "REASON_RECONCILIATION" && rec.F["delivered"] == true {
+		if rec.Seq > since && rec.Kind == "event" && rec.Type == "UPDATE" && rec.F["reason"] == "REASON_RECONCILIATION" && rec.F["delivered"] == true {
 			n++
 		}
 	}
-	h.mu.Lock()
-	req.End = vlib.Seq()
-	h.mu.Unlock()
-	h.c.Count("reconnections", 1)
 	h.c.Count("reconciliation_updates_delivered", int64(n))
+	return true
+}
+
+// takeoverRace (reuseUnlockedTasks on) - all gates are logical conditions, nothing is timed:
+//  1. environment K (wt1) is created; creations A (wt3d: needs in addition a task on a host that does not exist) and
+//     B (wt2s) are started and park at their before_DEPLOY gate, i.e. after their pre-deployment cleanup;
+//  2. K is destroyed with keepTasks: its task T stays behind, idle and unowned;
+//  3. A's gate is opened; once the master has seen A's REVIVE, A has selected T for take-over and is busy with its
+//     attempts to deploy the impossible task; then B's gate is opened: B takes T over at once;
+//  4. as soon as GetEnvironments lists T under B, the master sends T's TASK_RUNNING once more (status updates are
+//     delivered at least once): B's role becomes active, B is configured and live, holding T;
+//  5. A's deployment fails after its attempts. T must still be B's.
+func (h *c04Hist) takeoverRace() {
+	cli := h.s.Client
+	run := func(req *c04Req, f func(ctx context.Context) error) error {
+		h.mu.Lock()
+		req.Start = vlib.Seq()
+		h.reqs = append(h.reqs, req)
+		h.mu.Unlock()
+		ctx, cancel := coresim.Ctx(c04APITimeout)
+		err := f(ctx)
+		cancel()
+		h.mu.Lock()
+		if req.End == 0 {
+			req.End = vlib.Seq()
+		}
+		req.Err = truncate(grpcMsg(err), 300)
+		h.mu.Unlock()
+		h.c.Count("api_requests", 1)
+		h.c.Count("req_"+req.Kind, 1)
+		if err != nil {
+			h.c.Count("req_"+req.Kind+"_err", 1)
+		}
+		return err
+	}
+	kreq := &c04Req{Client: 0, Step: -1, Kind: "create", Tpl: "wt1", Op: "takeover-race"}
+	if run(kreq, func(ctx context.Context) error { return h.execCreate(ctx, cli, kreq) }) != nil || len(kreq.Tasks) != 1 {
+		return
+	}
+	_ = h.snapshot(cli, 0, -1)
+	T := kreq.Tasks[0]
+	chA, chB := make(chan verifplugin.Record, 1), make(chan verifplugin.Record, 1)
+	h.mu.Lock()
+	h.gateWait["pre:wt3d"], h.gateWait["pre:wt2s"] = chA, chB
+	h.mu.Unlock()
+	areq := &c04Req{Client: 0, Step: -1, Kind: "create", Tpl: "wt3d", Op: "takeover-race: selects the idle task, then fails"}
+	breq := &c04Req{Client: 1, Step: -1, Kind: "create", Tpl: "wt2s", Op: "takeover-race: takes the idle task over"}
+	doneA, doneB := make(chan error, 1), make(chan error, 1)
+	go func() { doneA <- run(areq, func(ctx context.Context) error { return h.execCreate(ctx, cli, areq) }) }()
+	go func() { doneB <- run(breq, func(ctx context.Context) error { return h.execCreate(ctx, cli, breq) }) }()
+	var recA, recB verifplugin.Record
+	parked := 0
+	timeout := time.After(40 * time.Second)
+	for parked < 2 {
+		select {
+		case recA = <-chA:
+			parked++
+		case recB = <-chB:
+			parked++
+		case <-timeout:
+			parked = 99
+		}
+	}
+	release := func() {
+		h.mu.Lock()
+		delete(h.gateWait, "pre:wt3d")
+		delete(h.gateWait, "pre:wt2s")
+		h.mu.Unlock()
+		if recA.Env != "" {
+			h.openPreGate(recA.Env)
+		}
+		if recB.Env != "" {
+			h.openPreGate(recB.Env)
+		}
+	}
+	if parked != 2 {
+		release()
+		<-doneA
+		<-doneB
+		return
+	}
+	// 2. keep-tasks destroy of K
+	h.mu.Lock()
+	kenv := h.envs[kreq.Env]
+	kenv.busy = true
+	h.mu.Unlock()
+	dreq := &c04Req{Client: 2 % h.p.Clients, Step: -1, Kind: "destroy", Env: kreq.Env, Op: "keepTasks"}
+	derr := run(dreq, func(ctx context.Context) error {
+		h.mu.Lock()
+		kenv.DestroyStart = dreq.Start
+		h.mu.Unlock()
+		_, err := cli.DestroyEnvironment(ctx, &pb.DestroyEnvironmentRequest{Id: kreq.Env, KeepTasks: true})
+		return err
+	})
+	h.mu.Lock()
+	kenv.busy = false
+	kenv.dead = derr == nil
+	kenv.destroyErr = derr != nil
+	h.mu.Unlock()
+	if derr != nil {
+		release()
+		<-doneA
+		<-doneB
+		return
+	}
+	// 3. A first: its REVIVE at the master means its take-over selection is made
+	mark := vlib.Seq()
+	h.openPreGate(recA.Env)
+	revived := false
+	for deadline := time.Now().Add(20 * time.Second); time.Now().Before(deadline) && !revived; time.Sleep(5 * time.Millisecond) {
+		for _, rec := range h.s.Master.Log() {
+			if rec.Seq > mark && rec.Kind == "call" && rec.Type == "REVIVE" {
+				revived = true
+			}
+		}
+	}
+	h.openPreGate(recB.Env)
+	// 4. B lists T: the status update is delivered once more
+	listed := false
+	for deadline := time.Now().Add(5 * time.Second); revived && time.Now().Before(deadline) && !listed; time.Sleep(10 * time.Millisecond) {
+		ctx, cancel := coresim.Ctx(20 * time.Second)
+		er, err := cli.GetEnvironments(ctx, &pb.GetEnvironmentsRequest{ShowAll: true, ShowTaskInfos: true})
+		cancel()
+		if err != nil {
+			break
+		}
+		for _, e := range er.GetEnvironments() {
+			if e.GetId() == recB.Env && contains(taskIDs(e.GetTasks()), T) {
+				listed = true
+			}
+		}
+	}
+	if listed {
+		h.s.Master.TaskStatus(T, "TASK_RUNNING", "status update delivered again")
+	}
+	errB := <-doneB
+	if errB == nil && listed {
+		h.c.Count("takeover_races_taker_live", 1)
+		_ = h.snapshot(cli, 1, -1)
+	}
+	errA := <-doneA
+	release()
+	if errA != nil && errB == nil && listed {
+		h.c.Count("takeover_races_complete", 1) // the doomed creation failed after the other one took the task over
+	}
+	_ = h.snapshot(cli, 0, -1)
+}
+
+// midReconnect: a creation whose tasks report TASK_RUNNING only after 2.5 s; as soon as the master has seen all
+// of them launched the event stream is dropped, so the core re-subscribes and reconciles while the environment's
+// tasks are in its task list, owned, and still staging. (All other clients are idle.)
+func (h *c04Hist) midReconnect(cli pb.ControlClient, r *rand.Rand) {
+	h.mu.Lock()
+	if h.aborted {
+		h.mu.Unlock()
+		return
+	}
+	busy := map[string]bool{}
+	for _, e := range h.envs {
+		if !e.dead {
+			for _, d := range e.Dets {
+				busy[d] = true
+			}
+		}
+	}
+	var free []c04Tpl
+	for _, t := range c04Pool() {
+		ok := !t.Gate
+		for _, d := range t.dets() {
+			if busy[d] {
+				ok = false
+			}
+		}
+		if ok {
+			free = append(free, t)
+		}
+	}
+	if len(free) == 0 {
+		h.mu.Unlock()
+		h.reconnect() // no detector free: the plain reconnection
+		return
+	}
+	tpl := free[r.Intn(len(free))]
+	req := &c04Req{Client: 0, Step: h.p.Reconnect, Kind: "create", Tpl: tpl.Name, Op: "reconnection-while-deploying", Start: vlib.Seq()}
+	h.reqs = append(h.reqs, req)
+	h.mu.Unlock()
+	expected := len(tpl.Tasks)
+	if tpl.NonCrit != "" {
+		expected++
+	}
+	h.lmu.Lock()
+	h.armTpl, h.armSeen, h.armDelay = tpl.Name, 0, 2500*time.Millisecond
+	h.lmu.Unlock()
+	ctx, cancel := coresim.Ctx(c04APITimeout)
+	defer cancel()
+	done := make(chan error, 1)
+	go func() { done <- h.execCreate(ctx, cli, req) }()
+	var err error
+	returned := false
+	launched := false
+	for deadline := time.Now().Add(20 * time.Second); time.Now().Before(deadline) && !launched && !returned; {
+		select {
+		case err = <-done:
+			returned = true
+		case <-time.After(5 * time.Millisecond):
+			h.lmu.Lock()
+			launched = h.armSeen >= expected
+			h.lmu.Unlock()
+		}
+	}
+	if launched && !returned {
+		waitQuiet(h.s, 30*time.Millisecond, time.Second) // the ACCEPT calls are through
+		rreq := &c04Req{Client: 0, Step: h.p.Reconnect, Kind: "reconnect", Op: "while-deploying", Start: vlib.Seq()}
+		h.mu.Lock()
+		h.reqs = append(h.reqs, rreq)
+		h.mu.Unlock()
+		if h.dropAndWait(rreq.Start) {
+			h.mu.Lock()
+			rreq.End = vlib.Seq()
+			h.mu.Unlock()
+			h.c.Count("reconnections_while_deploying", 1)
+			_ = h.snapshot(cli, 0, h.p.Reconnect) // the creation is still waiting for its tasks
+		}
+	}
+	if !returned {
+		err = <-done
+	}
+	h.lmu.Lock()
+	h.armTpl = ""
+	h.lmu.Unlock()
+	h.c.Count("api_requests", 1)
+	h.c.Count("req_create", 1)
+	h.mu.Lock()
+	req.Err = truncate(grpcMsg(err), 300)
+	h.mu.Unlock()
+	if err != nil {
+		h.c.Count("req_create_err", 1)
+		if strings.Contains(grpcMsg(err), "DeadlineExceeded") {
+			h.stuck("create request with a reconnection while deploying did not return")
+			return
+		}
+	} else if launched {
+		h.c.Count("creations_ok_across_reconnection", 1)
+	}
+	_ = h.snapshot(cli, 0, h.p.Reconnect)
 }
 
 // stuck ends the history after a request that did not return: the core's goroutines are dumped (which ends
@@ -1531,6 +1843,36 @@ func (h *c04Hist) evaluate() {
 				owners = append(owners, e)
 			}
 		}
+		sinceLaunch := ""
+		if rec.Type == "KILL" && len(owners) == 0 {
+			if mt, found := mtasks[rec.TaskID]; found && mt.SeqLaunch < rec.Seq {
+				// a task is born owned by the environment it is launched for. (a) The creation succeeded and lists the
+				// task: owned since its launch. (b) The creation was still in progress: a snapshot taken entirely AFTER
+				// the kill and before the creation returned still lists the environment with the task LOCKED - a lock is
+				// never re-acquired, so the task was locked when the KILL arrived, and the environment's own failure
+				// cleanup only kills after the environment has left the list.
+				if e := envs[mt.EnvID]; e != nil && e.has(rec.TaskID) && rec.Seq <= e.CreateEnd && (e.DestroyStart == 0 || rec.Seq < e.DestroyStart) {
+					owners = append(owners, e)
+					sinceLaunch = "the creation that launched it was still in progress and later succeeded"
+				} else if e == nil {
+					for _, r := range reqs {
+						if r.Kind != "create" || r.FailedEnv != mt.EnvID || !(r.Start < rec.Seq && rec.Seq < r.End) {
+							continue
+						}
+						for _, sn := range snaps {
+							if sn.S0 > rec.Seq && sn.S1 < r.End {
+								for _, se := range sn.Envs {
+									if se.ID == mt.EnvID && contains(se.Tasks, rec.TaskID) && !contains(se.Unlocked, rec.TaskID) && sinceLaunch == "" {
+										owners = append(owners, &c04Env{ID: mt.EnvID, Tpl: r.Tpl, CreateStart: r.Start, CreateEnd: r.End})
+										sinceLaunch = "the creation that launched it was still in progress (the environment was still listed, with the task locked, after the KILL) and then failed with: " + r.Err
+									}
+								}
+							}
+						}
+					}
+				}
+			}
+		}
 		if rec.Type == "KILL" {
 			c.Count("kills_seen", 1)
 			if len(owners) == 0 {
@@ -1543,13 +1885,15 @@ func (h *c04Hist) evaluate() {
 			for _, r := range inflight(rec.Seq) {
 				k, rk := "", 0
 				switch {
+				case r.Kind == "reconnect":
+					k, rk = "reconnection", 6
 				case r.Kind == "cleanup-ids" && contains(r.Ids, rec.TaskID):
 					k, rk = "cleanup-by-id", 5
 				case r.Kind == "destroy" && r.Env != o.ID:
 					k, rk = "destroy-of-other-environment", 4
 				case r.Kind == "cleanup-all":
 					k, rk = "cleanup-all", 3
-				case r.Kind == "create":
+				case r.Kind == "create" && r.Env != o.ID && r.FailedEnv != o.ID:
 					k, rk = "create-of-other-environment", 2
 				case r.Kind == "control" && r.Env != o.ID:
 					k, rk = "control-of-other-environment", 1
@@ -1557,6 +1901,12 @@ func (h *c04Hist) evaluate() {
 				if rk > rank {
 					cause, rank = k, rk
 				}
+			}
+			if sinceLaunch != "" {
+				violate("KILL-OWNED", cause, fmt.Sprintf("KILL for task %s arrived at the master (seq %d) while the task, launched for environment %s at seq %d, was owned by it: %s; request in flight: %s",
+					rec.TaskID, rec.Seq, o.ID, mtasks[rec.TaskID].SeqLaunch, sinceLaunch, cause), rec.TaskID,
+					map[string]interface{}{"task": rec.TaskID, "owner": o.ID, "kill_seq": rec.Seq}, rec.TaskID)
+				continue
 			}
 			violate("KILL-OWNED", cause, fmt.Sprintf("KILL for task %s arrived at the master (seq %d) while the task was owned by live environment %s (creation acknowledged at seq %d, no destroy requested%s); request in flight: %s",
 				rec.TaskID, rec.Seq, o.ID, o.CreateEnd, map[bool]string{true: "", false: fmt.Sprintf(" before seq %d", o.DestroyStart)}[o.DestroyStart == 0], cause), rec.TaskID,
